@@ -761,11 +761,17 @@ impl GcManaged for ObjHashMap {
     fn mark(&self) {
         self.class.mark();
         self.elements.mark();
+        for key in self.elements.keys() {
+            key.mark();
+        }
     }
 
     fn blacken(&self) {
         self.class.blacken();
         self.elements.blacken();
+        for key in self.elements.keys() {
+            key.blacken();
+        }
     }
 }
 
